@@ -56,6 +56,13 @@ def vrun(fn, v):
 
 def main():
     req = json.load(sys.stdin)
+    if "histories" in req:
+        # sequences of calls in THIS process, in order: the verdict for a value must not depend on what was validated before
+        res = []
+        for name, seq in req["histories"]:
+            res.append([vrun(getattr(validators, name), v) for v in seq])
+        json.dump({"histories": res}, sys.stdout)
+        return
     out = {"validators": {n: [vrun(getattr(validators, n), v) for v in req["values"]] for n in ("integer_validator", "uinteger_validator")}, "fields": []}
     def attr_for(cls, wire):
         for a in attrs.fields(cls):
